@@ -1,6 +1,7 @@
 """E2 `genrules`: helpers for generator-invariant rules over Compiler/src/gen.cpp:
 anchor resolution (by declaration, never by position), CFG/dominance queries, single-definition
 origin tracking, register provenance, may-emit closure."""
+import os
 from .facts import (Facts, AnalysisBroken, walk_expr, walk_all_exprs, walk_stmts, show, strip_casts,
                     strip_copies, strip_conv, member_path, stmt_children)
 from .cfg import CFG
@@ -175,10 +176,61 @@ class GenModel:
             out['args'] = [self.inline_value(f, a, subst, depth + 1) if isinstance(a, dict) else a for a in e['args']]
         return out
 
-    def same_var(self, a, b):
+    def same_var(self, a, b, f=None):
         a, b = strip_casts(a), strip_casts(b)
-        return a is not None and b is not None and a.get('k') == 'ref' and b.get('k') == 'ref' and \
-            a.get('d') is not None and a.get('d') == b.get('d')
+        if a is None or b is None:
+            return False
+        if a.get('k') == 'ref' and b.get('k') == 'ref':
+            return a.get('d') is not None and a.get('d') == b.get('d')
+        if f is not None and a.get('k') == 'member' and b.get('k') == 'member' and a.get('mk') == 'field' and b.get('mk') == 'field':
+            # the same field of the same record object; two locals are the same object's value when one is a whole-record copy of
+            # the other (labels = l)
+            ra, pa = member_path(a)
+            rb, pb = member_path(b)
+            ra, rb = strip_casts(ra), strip_casts(rb)
+            if pa != pb or ra is None or rb is None or ra.get('k') != 'ref' or rb.get('k') != 'ref':
+                return False
+            if ra.get('d') == rb.get('d'):
+                return True
+            cls = self.record_copies(f)
+            return cls.get(ra.get('d')) is not None and cls.get(ra.get('d')) == cls.get(rb.get('d'))
+        return False
+
+    def record_copies(self, f):
+        """did -> representative, for locals of f that are whole-record copies of one another (T a = b; a = b;) and are written
+        field-wise through one of them only before the copy"""
+        key = ('reccopy', f['sig'])
+        if key in self._defs:
+            return self._defs[key]
+        parent = {}
+
+        def find(x):
+            while parent.get(x, x) != x:
+                x = parent[x]
+            return x
+        pairs = []
+        for st in walk_stmts(f['body']):
+            if st['k'] == 'decl':
+                for v in st['vars']:
+                    i0 = strip_casts(strip_copies(v.get('init'))) if v.get('init') is not None else None
+                    if i0 is not None and i0.get('k') == 'ref' and i0.get('dk') == 'var' and not (v.get('cty') or '').startswith('std::'):
+                        pairs.append((v['d'], i0['d']))
+        for e in walk_all_exprs(f['body']):
+            if e.get('k') == 'assign' and e.get('op', '=') == '=':
+                l, r = strip_casts(e['l']), strip_casts(strip_copies(e['r']))
+                if l is not None and r is not None and l.get('k') == 'ref' and r.get('k') == 'ref' and l.get('dk') == 'var' and r.get('dk') == 'var' and \
+                        (l.get('cty') or '') not in SCALAR_TYPES and not (l.get('cty') or '').startswith('std::'):
+                    pairs.append((l['d'], r['d']))
+            if e.get('k') == 'call' and (e.get('callee') or '').endswith('::operator=') and e.get('obj') is not None and e.get('args'):
+                l, r = strip_casts(e['obj']), strip_casts(strip_copies(e['args'][0]))
+                if l is not None and r is not None and l.get('k') == 'ref' and r.get('k') == 'ref' and l.get('dk') == 'var' and r.get('dk') == 'var' and \
+                        not (l.get('cty') or '').startswith('std::'):
+                    pairs.append((l['d'], r['d']))
+        for a_, b_ in pairs:
+            parent[find(a_)] = find(b_)
+        res = {x: find(x) for x in list(parent) + [p for pr in pairs for p in pr]}
+        self._defs[key] = res
+        return res
 
     def streval(self, f, e, depth=0):
         """constant string value through literals, constant globals, single-definition locals, std::string construction and '+'"""
@@ -472,3 +524,117 @@ def uninitialised_reads(model, f):
                 elif not state:
                     out.append((v, ev))
     return out
+
+
+# ============================================================================= integer quantities narrower than int
+SUBINT = ('short', 'unsigned short', 'signed char', 'unsigned char', 'short int', 'unsigned short int')
+_SUBINT_RE = None
+
+# which properties depend on which quantity: (regular expression over "<kind> <qualified name>", properties); first match wins.
+# Frozen from reading the code: every int-typed quantity of the library that carries a line, a position, a register, a count, a
+# priority or a pass number, and what depends on its value.
+NARROW_ROLES = [
+    (r'(::|\b)line$', ['C02', 'C07', 'C08', 'C12', 'C14']),
+    (r'priority$', ['C01', 'C09', 'C20']),
+    (r'Theo::Constant$', ['C01', 'C07', 'C20']),
+    (r'Theo::(RegisterIndex|ProgramIndex|JumpOffset)$', ['C01', 'C03', 'C10', 'C16']),
+    (r'Theo::(RegisterCount|StackMapIndex)$', ['C01', 'C03', 'C19']),
+    (r'Theo::VM::(Word|WordIndex)$|Activation::(data_start|seg_size|return_to|debug_info)$|VM::instruction_pointer$', ['C01', 'C03', 'C19', 'C20']),
+    (r'argnum$|stack_size$', ['C03', 'C04']),
+    (r'LRElement::|LRState::|Grammar::|Symbol::', ['C09', 'C12']),
+    (r'\bpass(es)?$', ['C10', 'C11']),
+    (r'Program::(potential_breaks|line_info|code|stack_maps)|StackMap::', ['C03', 'C05', 'C06', 'C08', 'C17']),
+    (r'(template_token_indices|content_constraint_token_indices|location|length)$', ['C09']),
+    (r'loops$|labels$|backpatching_todo$|marks$', ['C01', 'C03', 'C16']),
+]
+
+
+def narrow_declarations(facts):
+    """every field, typedef, parameter, return type, local and container element type of the library (generated scanner excluded)
+    whose canonical type is an integer type narrower than int: [{'kind', 'q', 'cty', 'where'}]"""
+    import re
+    out = []
+    tmpl_re = re.compile(r'[<,] ?(unsigned short|short|unsigned char|signed char)( int)? ?[,>]')
+
+    def sub(t):
+        t = (t or '').replace('const ', '').replace(' &', '').replace('volatile ', '').strip()
+        if t in SUBINT:
+            return t
+        m = tmpl_re.search(t or '')
+        if m and 'basic_string' not in t.split(m.group(0))[0][-20:]:
+            return 'container of ' + m.group(1)
+        return None
+    seen = set()
+
+    def add(kind, q, cty, loc):
+        key = (kind, q)
+        if key in seen:
+            return
+        seen.add(key)
+        file = loc[0] if loc and isinstance(loc[0], str) else None
+        out.append({'kind': kind, 'q': q, 'cty': cty, 'where': '%s:%s' % (os.path.relpath(file, facts.repo) if file else '?', loc[1] if loc and len(loc) > 1 else '?')})
+    for key, r in facts.records.items():
+        rl = r.get('loc') or []
+        if not rl or 'lex.yy' in str(rl[0]) or not str(rl[0]).startswith(facts.repo):
+            continue
+        for f in r['fields']:
+            s = sub(f.get('cty'))
+            if s:
+                add('field', f.get('q') or (r['q'] + '::' + f['name']), s, rl)
+    for q, t in facts.typedefs.items():
+        if q.startswith('flex_') or q.startswith('yy') or q.startswith('YY'):
+            continue
+        s = sub(t.get('cty'))
+        if s:
+            add('typedef', q, s, t.get('loc') or [None, '?'])
+    for f in facts.functions:
+        if f.get('body') is None or f['tmpl'] == 'pattern' or f['file'].endswith(('lex.yy.c', 'lex.yy.h')) or not f['file'].startswith(facts.repo):
+            continue
+        floc = [f['file']] + list(f.get('loc', [None, 0])[1:2])
+        for p in f.get('params', []):
+            s = sub(p.get('cty'))
+            if s:
+                add('parameter', '%s(%s)' % (f['q'], p['name']), s, [f['file'], (p.get('loc') or [0])[0]])
+        s = sub(f.get('ret'))
+        if s:
+            add('return type', f['q'], s, floc)
+        for st in walk_stmts(f['body']):
+            vs = st['vars'] if st['k'] == 'decl' else ([st['var']] if st['k'] in ('rangefor',) or (st['k'] == 'if' and st.get('var')) else [])
+            for v in vs:
+                s = sub(v.get('cty'))
+                if s:
+                    # a local that only ever receives literals, booleans or characters keeps every value
+                    ds = [d for d in [v.get('init')] if d is not None]
+                    for x in walk_all_exprs(f['body']):
+                        if x.get('k') == 'assign' and strip_casts(x['l']).get('d') == v.get('d'):
+                            ds.append(x['r'])
+                    harmless = st['k'] == 'decl' and ds and all((strip_casts(d) or {}).get('k') in ('int', 'char', 'bool') or
+                                                                   ((strip_casts(d) or {}).get('cty') or '') in ('bool', 'char') + SUBINT for d in ds)
+                    if not harmless:
+                        add('local', '%s: %s' % (f['q'], v['name']), s, [f['file'], (v.get('loc') or [0])[0]])
+    return out
+
+
+def narrow_rule(rep, rule_id, pid, facts):
+    """the integer quantities the property depends on are not declared narrower than int"""
+    import re
+    R = rep.rule(rule_id, 'the integer quantities this property depends on (lines, positions, registers, counts, priorities, pass numbers - table NARROW_ROLES) are not '
+                          'declared with a type narrower than int: values that are range-checked against INT_MAX, or not at all, keep their value', floor=1)
+    decls = narrow_declarations(facts)
+    mine = 0
+    for d in decls:
+        props = None
+        for pat, ps in NARROW_ROLES:
+            if re.search(pat, d['q']):
+                props = ps
+                break
+        if props is None:
+            props = ['C20']          # a quantity nobody listed: values stay what they are (C20) is the property it falls under
+        if pid not in props:
+            continue
+        mine += 1
+        lim = {'short': 32767, 'unsigned short': 65535, 'signed char': 127, 'unsigned char': 255}.get(d['cty'].replace('container of ', '').replace(' int', ''), 255)
+        R.violation('%s %s' % (d['kind'], d['q']), '%s is declared %s: it receives int values (nothing limits them to %d), so larger values wrap around silently' % (d['q'], d['cty'], lim),
+                    d['where'], witness={'needs': 'a value above %d in this quantity' % lim})
+    R.ok('inventory', 'fields, typedefs, parameters, return types, locals and container element types of %d units scanned: none of the quantities of this property is narrower than int' % len(facts.units)
+         if not mine else 'inventory of %d units' % len(facts.units), 'Compiler/, VM/')
